@@ -16,6 +16,9 @@ CORPUS = [
     # D7: 형 항..... 혀어엉. 형. 하앙.♥ 형... 흑.... 혀엉.??♥?
     ([(0, 1, 0, None), (1, 1, 5, None), (0, 3, 1, None), (0, 1, 1, None), (1, 2, 1, leaf(2)), (0, 1, 3, None), (5, 1, 4, None),
       (0, 2, 1, (0, None, (0, None, (0, leaf(2), None))))], ""),
+    # seeded change C02-clone-loses-return-point: 형... 형..... 형. 항...💕 항...💕? 흑 항... 흑... 항. 항...♡!
+    ([(0, 1, 3, None), (0, 1, 5, None), (0, 1, 1, None), (1, 1, 3, leaf(8)), (1, 1, 3, (0, leaf(8), None)), (5, 1, 0, None), (1, 1, 3, None),
+      (5, 1, 3, None), (1, 1, 1, None), (1, 1, 3, (1, leaf(13), None))], "ab\n"),
     ([(0, 1, 150, None)] + idiom_loop(random.Random(1), 150)[1:] + [(5, 1, 0, None), (1, 1, 1, None)], "Z"),
 ]
 
@@ -62,12 +65,8 @@ def shrink_levels(p, i, lvl, budget=120):
 
 def run_binary(args):
     path, level, stdin, timeout = args
-    try:
-        p = subprocess.run([HYEONG_BIN, "--color", "never", "run", "-O%d" % level, path], input=stdin.encode("utf-8"),
-                           stdout=subprocess.PIPE, stderr=subprocess.PIPE, timeout=timeout)
-        return p.stdout, p.stderr, p.returncode
-    except subprocess.TimeoutExpired as e:
-        return e.stdout or b"", e.stderr or b"", "timeout"
+    p = run_capped([HYEONG_BIN, "--color", "never", "run", "-O%d" % level, path], input=stdin.encode("utf-8"), timeout=timeout)
+    return p.stdout, p.stderr, p.returncode
 
 
 def strip_log(out):
@@ -87,10 +86,11 @@ def main(tier, seed):
             p = rand_prog(rng, grammar=True)
             if rng.random() < 0.25: p = p + idiom_loop(rng, rng.choice([99, 100, 101, 102, 150]))
             if rng.random() < 0.2: p = p + idiom_read(rng) + idiom_print(rng)
+            if rng.random() < 0.08: p = (p[:4] if rng.random() < 0.5 else []) + idiom_return_after_stop(rng)
             progs.append((p, rand_stdin(rng)))
         encs = [(enc_prog(p), enc_text(i)) for p, i in progs]
         # classify with the model: does the unoptimised run end within the step cap?
-        m_one = model_exec(["one %s %s 3000" % e for e in encs])
+        m_one = model_exec(["end %s %s 3000" % e for e in encs])    # only how the run ends: the full traces of 40 000 programs do not fit in memory
         term = [not (r.endswith("END cut") or unjudged(r)) for r in m_one]
         # (i) optimiser output
         ops = []
